@@ -495,7 +495,12 @@ func (obj *AvlIterator) Next() {
     return
   }
   if obj.node.Deleted || obj.value != obj.node.Value {
-    obj.node = obj.tree.FindNodeLE(obj.value+1)
+    if obj.value == int(^uint(0) >> 1) {
+      // there is no larger key (obj.value+1 would wrap around)
+      obj.node = nil
+    } else {
+      obj.node = obj.tree.FindNodeLE(obj.value+1)
+    }
   } else
   if obj.node.Right != nil {
     // there is a node to the right where we can go
